@@ -512,12 +512,12 @@ package sftp
 //@   ensures len(result) == p.blen
 
 //@ func (*File).WriteTo$3
-//@   property C20, C01
+//@   property C20, C01, C03
 //@   channel readCh invariant m.res != nil
 //@   requires pool != nil && pool.blen > 0 && pool.blen <= 0x7fffffff && pool.blen == chunkSize
 
 //@ func (*File).writeAtConcurrent$2
-//@   property C20, C01, C13
+//@   property C20, C01, C13, C03
 //@   requires attr(errCh, lo) == attr(workCh, lo) && attr(errCh, hi) == attr(workCh, hi)
 //@   channel workCh invariant attr(ch, lo) <= m.off && m.off <= attr(ch, hi) && m.res != nil
 //@   channel errCh invariant m.err != nil && attr(ch, lo) <= m.off && m.off <= attr(ch, hi)
@@ -525,7 +525,7 @@ package sftp
 //@   loop 1 invariant attr(errCh, lo) == attr(workCh, lo) && attr(errCh, hi) == attr(workCh, hi)
 
 //@ func (*File).readFromWithConcurrency$2
-//@   property C20, C01, C13
+//@   property C20, C01, C13, C03
 //@   requires attr(errCh, lo) == attr(workCh, lo)
 //@   channel workCh invariant attr(ch, lo) <= m.off && m.off < math.MaxInt64 && m.res != nil
 //@   channel errCh invariant m.err != nil && attr(ch, lo) <= m.off && m.off < math.MaxInt64
@@ -1758,7 +1758,12 @@ package sftp
 //  the start, within [0, len(b)])
 
 //@ func (*File).readAt$2
-//@   property C01, C13, C20
+//@   loop 1 ghost wTaken, wDone
+//@   loop 1 invariant ghost.wTaken - ghost.wDone == old(ghost.wTaken) - old(ghost.wDone)
+//@   update after recv workCh#1: ghost.wTaken = ghost.wTaken + ite(ret1, 1, 0)
+//@   update after recv res#1: ghost.wDone = ghost.wDone + 1
+// (C03: a worker never abandons the reply of a chunk it has taken)
+//@   property C01, C13, C20, C03
 //@   requires attr(errCh, lo) == attr(workCh, lo) && attr(errCh, hi) == attr(workCh, hi)
 //@   channel workCh invariant 0 <= attr(ch, lo) && attr(ch, hi) <= 0x7fffffffffffffff - 1 && attr(ch, lo) <= m.off && m.off <= attr(ch, hi) && int64(len(m.b)) <= attr(ch, hi) - m.off && m.res != nil
 //@   channel errCh invariant m.err != nil && attr(ch, lo) <= m.off && m.off <= attr(ch, hi)
@@ -1767,7 +1772,7 @@ package sftp
 //@   assert before call copy#1: arg0 == packet.b
 
 //@ func (*File).readAt$1
-//@   property C01, C13
+//@   property C01, C13, C03
 //@   requires fileOK(f) && off >= 0 && off <= 0x3fffffffffffffff && len(old(b)) <= 0x3fffffffffffffff
 //@   requires attr(workCh, lo) == off && attr(workCh, hi) == off + int64(len(old(b)))
 //@   channel workCh invariant 0 <= attr(ch, lo) && attr(ch, hi) <= 0x7fffffffffffffff - 1 && attr(ch, lo) <= m.off && m.off <= attr(ch, hi) && int64(len(m.b)) <= attr(ch, hi) - m.off && m.res != nil
@@ -1776,14 +1781,17 @@ package sftp
 //@   assert before call (*clientConn).dispatchRequest#1: arg2.(*sshFxpReadPacket).Offset == uint64(offset) && uint64(arg2.(*sshFxpReadPacket).Len) == uint64(len(rb)) && len(rb) >= 1 && len(rb) <= f.c.maxPacket && arg2.(*sshFxpReadPacket).Handle == f.handle && arg2.(*sshFxpReadPacket).ID == id && arg1 == res
 
 //@ func (*File).WriteTo$2
-//@   property C01, C20
+//@   assert before send readCh#1: arg1.cur == cur && arg1.next != arg1.cur
+// (C03: every chunk gets its own link of the cur/next chain, so the reducer writes the chunks in request order whatever
+//  the order of the replies)
+//@   property C01, C20, C03
 //@   requires fileOK(f) && chunkSize >= 1 && chunkSize <= 0x7fffffff
 //@   channel readCh invariant m.res != nil
 //@   loop 1 invariant fileOK(f) && chunkSize >= 1 && chunkSize <= 0x7fffffff
 //@   assert before call (*clientConn).dispatchRequest#1: arg2.(*sshFxpReadPacket).Offset == uint64(off) && uint64(arg2.(*sshFxpReadPacket).Len) == uint64(chunkSize) && arg2.(*sshFxpReadPacket).Handle == f.handle && arg2.(*sshFxpReadPacket).ID == id && arg1 == res
 
 //@ func (*File).writeAtConcurrent$1
-//@   property C01, C13, C20
+//@   property C01, C13, C20, C03
 //@   requires fileOK(f) && off >= 0 && off <= 0x3fffffffffffffff && len(b) <= 0x3fffffffffffffff
 //@   requires attr(workCh, lo) == off && attr(workCh, hi) == off + int64(len(b))
 //@   channel workCh invariant attr(ch, lo) <= m.off && m.off <= attr(ch, hi) && m.res != nil
@@ -1948,7 +1956,7 @@ package sftp
 //  offset, which is never below the starting offset)
 
 //@ func (*File).readFromWithConcurrency$1
-//@   property C01, C12, C13, C20
+//@   property C01, C12, C13, C20, C03
 //@   requires fileOK(f) && r != nil && f.offset >= 0 && f.offset <= 0x3fffffffffffffff
 //@   requires attr(workCh, lo) == f.offset && attr(errCh, lo) == f.offset
 //@   channel workCh invariant attr(ch, lo) <= m.off && m.off < math.MaxInt64 && m.res != nil
@@ -2211,6 +2219,8 @@ package sftp
 //@   modifies nothing
 
 //@ ghost var wfail bool
+//@ ghost var wTaken int
+//@ ghost var wDone int
 //@ ghost var errOpen bool
 //@ ghost var reqFresh bool
 //@ ghost var freshReq *Request
